@@ -46,6 +46,10 @@ type runtimeContextManager struct {
 
 	weakRefPool luagc.Pool
 	gcPolicy    GCPolicy
+
+	// Whether the hard limit for a resource is the enclosing context's (what
+	// it had left when this context was pushed).
+	inheritedCpu, inheritedMem, inheritedMillis bool
 }
 
 var _ RuntimeContext = (*runtimeContextManager)(nil)
@@ -112,7 +116,11 @@ func (m *runtimeContextManager) PushContext(ctx RuntimeContextDef) {
 	}
 	parent := *m
 	m.startTime = now()
-	m.hardLimits = m.hardLimits.Remove(m.usedResources).Merge(ctx.HardLimits)
+	parentLeft := m.hardLimits.Remove(m.usedResources)
+	m.hardLimits = parentLeft.Merge(ctx.HardLimits)
+	m.inheritedCpu = parentLeft.Cpu != 0 && m.hardLimits.Cpu == parentLeft.Cpu
+	m.inheritedMem = parentLeft.Memory != 0 && m.hardLimits.Memory == parentLeft.Memory
+	m.inheritedMillis = parentLeft.Millis != 0 && m.hardLimits.Millis == parentLeft.Millis
 	m.softLimits = m.hardLimits.Merge(m.softLimits).Merge(ctx.SoftLimits)
 	m.usedResources = RuntimeResources{}
 	m.requiredFlags |= ctx.RequiredFlags
@@ -181,7 +189,7 @@ func (m *runtimeContextManager) requireCPU(cpuAmount uint64) {
 	}
 	cpuUsed := m.usedResources.Cpu + cpuAmount
 	if atLimit(cpuUsed, m.hardLimits.Cpu) {
-		m.TerminateContext("CPU limit of %d exceeded", m.hardLimits.Cpu)
+		m.terminateAtLimit(cpuResource, "CPU limit of %d exceeded", m.hardLimits.Cpu)
 	}
 	if m.trackTime && m.nextCpuThreshold <= cpuUsed {
 		m.nextCpuThreshold = cpuUsed + cpuThresholdIncrement
@@ -209,7 +217,7 @@ func (m *runtimeContextManager) requireMem(memAmount uint64) {
 	}
 	memUsed := m.usedResources.Memory + memAmount
 	if atLimit(memUsed, m.hardLimits.Memory) {
-		m.TerminateContext("memory limit of %d exceeded", m.hardLimits.Memory)
+		m.terminateAtLimit(memoryResource, "memory limit of %d exceeded", m.hardLimits.Memory)
 	}
 	m.usedResources.Memory = memUsed
 }
@@ -270,7 +278,7 @@ func (m *runtimeContextManager) UnusedMem() uint64 {
 func (m *runtimeContextManager) updateTimeUsed() {
 	m.usedResources.Millis = now() - m.startTime
 	if atLimit(m.usedResources.Millis, m.hardLimits.Millis) {
-		m.TerminateContext("time limit of %d exceeded", m.hardLimits.Millis)
+		m.terminateAtLimit(millisResource, "time limit of %d exceeded", m.hardLimits.Millis)
 	}
 }
 
@@ -314,6 +322,44 @@ func (m *runtimeContextManager) TerminateContext(format string, args ...interfac
 	panic(ContextTerminationError{
 		message: fmt.Sprintf(format, args...),
 	})
+}
+
+// terminateAtLimit terminates the context because the hard limit for the
+// given resource has been reached.
+func (m *runtimeContextManager) terminateAtLimit(res limitedResource, format string, args ...interface{}) {
+	if m.status != StatusLive {
+		return
+	}
+	m.status = StatusKilled
+	panic(ContextTerminationError{
+		message:   fmt.Sprintf(format, args...),
+		resource:  res,
+		inherited: m.limitInherited(res),
+	})
+}
+
+func (m *runtimeContextManager) limitInherited(res limitedResource) bool {
+	switch res {
+	case cpuResource:
+		return m.inheritedCpu
+	case memoryResource:
+		return m.inheritedMem
+	case millisResource:
+		return m.inheritedMillis
+	}
+	return false
+}
+
+// propagateTermination is called once a context terminated with e has been
+// popped: if the limit that was hit is the (now current) enclosing context's,
+// that context is terminated too.
+func (m *runtimeContextManager) propagateTermination(e ContextTerminationError) {
+	if !e.inherited || m.status != StatusLive {
+		return
+	}
+	m.status = StatusKilled
+	e.inherited = m.limitInherited(e.resource)
+	panic(e)
 }
 
 // Current unix time in ms
